@@ -4490,6 +4490,12 @@ class NetCDFRead(IORead):
 
             # Create a formula terms coordinate reference.
             for ncvar, domain_anc, axes in domain_ancillaries:
+                if ncvar in g["domain_ancillary_key"]:
+                    # This variable has already been inserted into
+                    # this field/domain as a domain ancillary (it is
+                    # the value of more than one term)
+                    continue
+
                 logger.detail(
                     f"        [g] Inserting {domain_anc.__class__.__name__}"
                 )  # pragma: no cover
